@@ -10,6 +10,7 @@ CONSTANTS
   WithElif = TRUE
   StrayBase <- MCStrayBase
   StrayOps <- MCStrayOps
+  XKinds <- MCXKinds
   Enumerate = TRUE
 INVARIANTS WellFormed NoSideEffectsOnFailure RecalledMarked ExitShape CompiledAgrees Emit
 CHECK_DEADLOCK FALSE
